@@ -293,6 +293,7 @@ class Output(BaseOutput):
             state: A Ladim State instance
         """
         npart = int(state.npid)  # Total number of particles so far
+        self.nc.num_particles = npart  # Needed for warm start
         for var in self.particle_variables:
             if state.dtypes[var] == np.dtype("datetime64[s]"):
                 unit = self.time_unit
